@@ -93,7 +93,11 @@ def opsF : Ops Float :=
     sincos := fun x => (Float.sin x, Float.cos x),
     tan := Float.tan, dot := GenF.Matrix.Dot, transformArc := transformArcF,
     lineExtends := lineExtendsF, closeExtends := closeExtendsF, arcFix := arcFixF,
-    checkDash := checkDashImpl arithF fmodF }
+    checkDash := fun sw off d len =>
+      -- canvas.go DrawPath: checkDash on the pattern scaled by the stroke width; a remaining pattern is
+      -- replaced by the canonical unscaled one
+      let (d', ok) := checkDashImpl arithF fmodF (off * sw) (d.map (· * sw)) len
+      if d'.isEmpty then (d', ok) else ((dashCanonical arithF off d).2, ok) }
 
 /-! ## line parser -/
 
@@ -281,11 +285,12 @@ def handle : List String → Option String
     let (w, ts) ← optDim ts
     let (hh, ts) ← optDim ts
     let (vb, ts) ← optVB ts
+    let (par, ts) ← str ts
     let (attrs, ts) ← counted attr ts
     let (n, ts) ← nat ts
     let (ch, ts) ← trees n ts
     if ts != [] then none else
-    pure (showDoc (parseSVG opsF ⟨w, hh, vb⟩ attrs ch lens))
+    pure (showDoc (parseSVG opsF ⟨w, hh, vb, par⟩ attrs ch lens))
   | _ => none
 
 def main : IO Unit := runDriver handle
